@@ -79,7 +79,7 @@ func genScenario(r *vh.Rng, idx int) scenario {
 			add("announce", delays, 0)
 		case k < 12:
 			add("unannounce", delays, 0)
-		case k < 16 || !mayShut:
+		case k < 18 || !mayShut:
 			add("browse", delays, 0)
 		default:
 			add("shutdown", delays, 0)
